@@ -103,8 +103,10 @@ class Session:
             self.sticky_trailer = [(b"x-sticky-trailer", b"t%d" % hs.choose(50))]
         self.p_sticky = 0.95 if self.burst else 0.6
         self.oplog = {"c2s": [], "s2c": []}
-        self.qc = FakeQuic(True)
-        self.qs = FakeQuic(False)
+        # half of the sessions run with the qlog trace attached (logging must not change what is delivered)
+        self.with_logger = self.h.chance(0.5)
+        self.qc = FakeQuic(True, logger=self.with_logger)
+        self.qs = FakeQuic(False, logger=self.with_logger)
         self.hc = H3Connection(self.qc, enable_webtransport=self.wt)
         self.hs = H3Connection(self.qs, enable_webtransport=self.wt)
         self.exp = {"c2s": {}, "s2c": {}}
@@ -343,6 +345,9 @@ def local_send(h3, op):
         h3.send_data(op[1], op[2], end_stream=op[3])
 
 
+LOGGER_ON_DELIVERY = [False]  # set per run by run_one (the receiving connections log too when the session did)
+
+
 def deliver(is_client, wt, schedule, local=None):
     """feed a schedule to a FRESH receiving H3Connection. local: the HEADERS/DATA sends of the
     receiver's own role (same API calls as in the session): a client performs them before anything
@@ -350,7 +355,7 @@ def deliver(is_client, wt, schedule, local=None):
     from aioquic.h3.connection import H3Connection
     from aioquic.quic.events import DatagramFrameReceived, StreamDataReceived
 
-    q = FakeQuic(is_client)
+    q = FakeQuic(is_client, logger=LOGGER_ON_DELIVERY[0])
     h3 = H3Connection(q, enable_webtransport=wt)
     r = Result()
     r.store = {}
@@ -550,7 +555,23 @@ def run_one(seed, tier="quick", variant=None, replay=None):
 
     sess = None
     try:
-        sess = Session(ch, small=(variant == "exhaustive_short"))
+        LOGGER_ON_DELIVERY[0] = False
+        try:
+            sess = Session(ch, small=(variant == "exhaustive_short"))
+        except Violation:
+            raise
+        except Exception as exc:
+            # the session only makes valid calls of the sending API with valid messages: an exception from
+            # inside the library means those messages are never delivered (a harness bug is re-raised)
+            from sim.transport import innermost_frame
+
+            where = innermost_frame(exc)
+            if where == "?" or "pylsqpack" in repr(exc):
+                raise
+            raise Violation("c14.send-raised", "%s@%s" % (type(exc).__name__, where),
+                            "a valid call of the HTTP/3 sending API raised %r at %s" % (exc, where))
+        LOGGER_ON_DELIVERY[0] = sess.with_logger
+        bump("with_qlog_trace", int(sess.with_logger))
         for k, v in sess.counts.items():
             bump(k, v)
         info["wt"] = sess.wt
